@@ -105,6 +105,10 @@ def run(ctx, rep):
             rep.machinery('ANCHOR-MISSING ' + callee)
             continue
         cs = {c for c in callers_of(facts, callee) if c.startswith(('fatfs::', '<fatfs::'))}
+        allowed = set(allowed)
+        if 'fatfs::file::File::update_dir_entry_after_write' in allowed and \
+                'fatfs::file::File::update_dir_entry_after_write' not in facts.fns:
+            allowed.add('<fatfs::file::File as fatfs::io::Write>::write')  # the update was merged into write()
         extra = cs - allowed
         rep.oblige('R18.2', callee, ok=not extra, nontrivial=True, sample={'setter': callee, 'callers': sorted(cs)})
         for e in sorted(extra):
@@ -129,11 +133,27 @@ def run(ctx, rep):
     # ---------------- R18.3
     W = facts.fns.get('<fatfs::file::File as fatfs::io::Write>::write')
     U = facts.fns.get('fatfs::file::File::update_dir_entry_after_write')
+    merged = False
+    if U is None and W is not None and any((t.get('callee') or '') == EDITOR + '::set_modified' for b, t in W.calls()):
+        U, merged = W, True  # the post-write update was merged into write(): the stamp itself is the must-call
     if W is None or U is None:
         rep.machinery('ANCHOR-MISSING File::write / update_dir_entry_after_write')
     else:
-        m = Must(facts, lambda f, b, t, names: U.name in names)
-        cut = m.crossing_edges(W, set())
+        if merged:
+            m = Must(facts, lambda f, b, t, names: (t.get('callee') or '') == EDITOR + '::set_modified')
+            cut = {(b, x) for b, t in W.calls() if (t.get('callee') or '') == EDITOR + '::set_modified' for x in W.succ(b)}
+            # a file without a directory entry (the root directory stream) has nothing to stamp
+            from analyses import switch_source as _ss
+            for bi in W.reachable():
+                tt = W.blocks[bi]['term']
+                if tt['k'] == 'switch':
+                    src = _ss(W, bi)
+                    if src and src['kind'] == 'discr' and [e.get('n') for e in src['place']['p'] if 'f' in e][-1:] == ['entry']:
+                        some = [x for v, x in tt['targets'] if v == 1]
+                        cut |= {(bi, x) for x in W.succ(bi) if x not in some}
+        else:
+            m = Must(facts, lambda f, b, t, names: U.name in names)
+            cut = m.crossing_edges(W, set())
         # exits that report 0 bytes are exempt: assignments `_0 = Ok(const 0)`
         zero_exits = set()
         for bi in W.reachable():
